@@ -85,6 +85,30 @@ func runC20(res *Result, tier string, seed int64, replay string) {
 		}
 	}
 	res.Exhaustive = true
+	// the library results are computed sequentially up front: concurrent in-process renders of documents with different
+	// heads interfere with each other (C07's finding) and would make the reference itself unreliable
+	type libRes struct {
+		html string
+		kind string
+	}
+	libOf := map[string]libRes{}
+	for name, content := range cliDocs {
+		for _, dbg := range []bool{false, true} {
+			var opts []mjml.RenderOption
+			if dbg {
+				opts = append(opts, mjml.WithDebugTags(true))
+			}
+			h, e := mjml.Render(content, opts...) // the cache option does not change the result (C13)
+			k := "fail"
+			switch {
+			case e == nil:
+				k = "ok"
+			case h != "":
+				k = "val"
+			}
+			libOf[fmt.Sprintf("%s/%v", name, dbg)] = libRes{h, k}
+		}
+	}
 	parallel(16, len(cases), func(i int) {
 		c := cases[i]
 		wd := filepath.Join(dir, fmt.Sprintf("case%d", i))
@@ -164,18 +188,8 @@ func runC20(res *Result, tier string, seed int64, replay string) {
 		lib := "fail"
 		html := ""
 		if isDoc {
-			var opts []mjml.RenderOption
-			if c.debug {
-				opts = append(opts, mjml.WithDebugTags(true))
-			}
-			h, e := mjml.Render(content, opts...) // the cache option does not change the result (C13)
-			html = h
-			switch {
-			case e == nil:
-				lib = "ok"
-			case h != "":
-				lib = "val"
-			}
+			lr := libOf[fmt.Sprintf("%s/%v", c.doc, c.debug)]
+			html, lib = lr.html, lr.kind
 		}
 		readOk := "1"
 		if !isDoc {
